@@ -23,7 +23,35 @@ def elit(x):
     return '(Fin %s)' % qlit(x)
 
 
+def natural_segments(d):
+    """[(lo, hi, slope)] of the diagram in the natural order of R: (-inf, 0), (0, ..), ..., (.., 1), (1, inf)"""
+    if d['kind'] == 'fkm':
+        M2 = d['M2'] if d.get('M2') is not None else d['M'] / 3.0
+        return [(-INF, 0.0, d['M']), (0.0, 1.0, M2), (1.0, INF, 0.0)]
+    return [(-INF, 0.0, d['M0']), (0.0, d['R12'], d['M1']), (d['R12'], d['R23'], d['M2']), (d['R23'], 1.0, d['M3']),
+            (1.0, INF, d['M4'])]
+
+
+def listed_segments(d):
+    """d['listing'] = k: the diagram is built by HaighDiagram.from_dict with the segments listed in the k-th cyclic
+    rotation of the natural order (the only listings the gap check of HaighDiagram accepts; k = 0: natural order,
+    k = n - 1: the order the constructors fkm_goodman / five_segment use)"""
+    segs = natural_segments(d)
+    k = d['listing'] % len(segs)
+    return segs[k:] + segs[:k]
+
+
+def listed_otherwise_than_constructor(d):
+    """from_dict diagram whose listing is not the one the constructors use ((1, inf), (-inf, 0), then ascending R)"""
+    if d.get('listing') is None:
+        return False
+    n = len(natural_segments(d))
+    return d['listing'] % n != n - 1
+
+
 def diagram_lit(d):
+    if d.get('listing') is not None:
+        return '[' + '; '.join('mkSeg %s %s %s' % (elit(lo), elit(hi), qlit(M)) for lo, hi, M in listed_segments(d)) + ']'
     if d['kind'] == 'fkm':
         if d.get('M2') is None:
             return '(fkm_goodman_diagram_default %s)' % qlit(d['M'])
@@ -152,9 +180,20 @@ def haigh_obj(d):
     return pd.Series({k: d[k] for k in ('M0', 'M1', 'M2', 'M3', 'M4', 'R12', 'R23')})
 
 
+def haigh_diagram(d):
+    """the HaighDiagram object: through the constructors, or (d['listing']) through from_dict in the given listing order"""
+    import pylife.strength.meanstress as MS
+    if d.get('listing') is not None:
+        return MS.HaighDiagram.from_dict({(lo, hi): M for lo, hi, M in listed_segments(d)})
+    return MS.HaighDiagram.fkm_goodman(haigh_obj(d)) if d['kind'] == 'fkm' else MS.HaighDiagram.five_segment(haigh_obj(d))
+
+
 def impl_plain(d, amps, means, Rg):
     import pylife.strength.meanstress as MS
     a, m = np.asarray(amps, float), np.asarray(means, float)
+    if d.get('listing') is not None:     # what the plain functions do, with the from_dict diagram
+        res = haigh_diagram(d).transform(pd.DataFrame({'range': 2. * a, 'mean': m}), Rg)
+        return [float(x) for x in res.load_collective.amplitude.to_numpy()]
     if d['kind'] == 'fkm':
         M2 = d['M2'] if d.get('M2') is not None else d['M'] / 3.0
         return [float(x) for x in MS.fkm_goodman(a, m, d['M'], M2, Rg)]
@@ -185,8 +224,11 @@ def impl_collective(d, cols, Rg, layout='range'):
         df = pd.DataFrame({'range': np.asarray(x, float), 'mean': np.asarray(y, float)}, index=idx)
     else:
         df = pd.DataFrame({'from': np.asarray(x, float), 'to': np.asarray(y, float)}, index=idx)
-    acc = df.meanstress_transform
-    lc = acc.fkm_goodman(haigh_obj(d), Rg) if d['kind'] == 'fkm' else acc.five_segment(haigh_obj(d), Rg)
+    if d.get('listing') is not None:
+        lc = haigh_diagram(d).transform(df, Rg).load_collective
+    else:
+        acc = df.meanstress_transform
+        lc = acc.fkm_goodman(haigh_obj(d), Rg) if d['kind'] == 'fkm' else acc.five_segment(haigh_obj(d), Rg)
     amp, mean = lc.amplitude, lc.meanstress
     if idx is not None:
         amp, mean = amp.reindex(idx), mean.reindex(idx)
@@ -220,9 +262,11 @@ def impl_collective_multi(ds, cols, Rg):
     return out
 
 
-def hist_series(kind, xb, yb, counts, extra=None):
+def hist_series(kind, xb, yb, counts, extra=None, order=None):
     """A load histogram: kind 'range_mean' / 'from_to'; xb, yb = class breaks of the two levels; counts[i][j]
-    (optionally one matrix per value of an extra index level)."""
+    (optionally one matrix per value of an extra index level).  order = {'levels': [names in another order],
+    'perm': [row positions]}: the same matrix with the index levels reordered and / or the rows listed in another order
+    than the lexicographic product order (as after .sample(frac=1), a sort by cycles, a concat of partial matrices)."""
     xi = pd.IntervalIndex.from_breaks(np.asarray(xb, float))
     yi = pd.IntervalIndex.from_breaks(np.asarray(yb, float))
     names = ['range', 'mean'] if kind == 'range_mean' else ['from', 'to']
@@ -232,14 +276,18 @@ def hist_series(kind, xb, yb, counts, extra=None):
     else:
         idx = pd.MultiIndex.from_product([xi, yi, pd.Index(extra, name='node_id')], names=names + ['node_id'])
         vals = np.stack([np.asarray(c, float) for c in counts], axis=-1).ravel()
-    return pd.Series(vals, index=idx, name='cycles')
+    ser = pd.Series(vals, index=idx, name='cycles')
+    if order:
+        if order.get('levels'):
+            ser = ser.reorder_levels(order['levels'])
+        if order.get('perm') is not None:
+            ser = ser.iloc[list(order['perm'])]
+    return ser
 
 
 def impl_hist_transform(d, series, Rg):
     """HaighDiagram.transform on a histogram: per class the transformed range (before re-binning)"""
-    import pylife.strength.meanstress as MS
-    hd = MS.HaighDiagram.fkm_goodman(haigh_obj(d)) if d['kind'] == 'fkm' else MS.HaighDiagram.five_segment(haigh_obj(d))
-    res = hd.transform(series, Rg)
+    res = haigh_diagram(d).transform(series, Rg)
     return res['range'], res['mean']
 
 
